@@ -42,11 +42,33 @@ impl Prop for C08 {
             v.push(case(&[("mode", "key".into()), ("len", l.to_string()), ("rk", rk.into()), ("seed", rng.next().to_string())]));
             if th || l <= 65537 && (rk == "full" || rk == "random") { v.push(case(&[("mode", "pass".into()), ("len", l.to_string()), ("rk", rk.into()), ("seed", rng.next().to_string())])); }
         } }
+        // the tool on a terminal: 0..2 mistyped passwords before the right one, ciphertext to standard output
+        for (i, wrongs) in (if th { vec![0usize, 1, 2, 3, 1, 2] } else { vec![0usize, 1, 2] }).into_iter().enumerate() { v.push(case(&[("mode", "tty".into()), ("len", (*[50usize, 0, 70000].get(i % 3).unwrap()).to_string()), ("wrongs", wrongs.to_string()), ("rk", "full".into()), ("seed", rng.next().to_string())])); }
+        // freshness of the ephemeral field across a long history on one thread
+        for _ in 0..(if th { 4 } else { 1 }) { v.push(case(&[("mode", "fresh".into()), ("len", (if th { 400usize } else { 150 }).to_string()), ("rk", "full".into()), ("seed", rng.next().to_string())])); }
         for i in 0..(if th { 24 } else { 6 }) { v.push(case(&[("mode", "cli".into()), ("len", (*[0usize, 50, 70000].get(i % 3).unwrap()).to_string()), ("rk", "full".into()), ("seed", rng.next().to_string())])); }
         v
     }
     fn run(&self, c: &Case, _m: &mut Model) -> Outcome {
         let mut o = Outcome::default();
+        if get(c, "mode") == "tty" { return run_tty(c, _m); }
+        if get(c, "mode") == "fresh" {
+            // "a fresh ephemeral public key (or random salt)": n files written one after the other by one thread
+            let mut rng = Rng::new(get(c, "seed").parse().unwrap_or(0));
+            let n = getn(c, "len");
+            let (s, r) = (rng.bytes(32), rng.bytes(32)); let (spk, rpk) = (pub_of(&s), pub_of(&r));
+            let pk = rng.bytes(32);
+            let mut seen: std::collections::HashMap<Vec<u8>, usize> = Default::default();
+            o.tags.push("fresh".into()); o.nontrivial = Some(format!("fresh/{}/{}", n, get(c, "seed")));
+            for i in 0..n {
+                // the payload key is left to the library in two of three files
+                let f = imp::key_encrypt(&s, &spk, &rpk, None, if i % 3 == 2 { Some(&pk) } else { None }, b"same plaintext", &crate::imp::NOSCRIPT);
+                if f.res != "ok" || f.out.len() < 36 { o.oracle_fail = Some(("encrypt-succeeds".into(), f.res)); return o; }
+                if let Some(j) = seen.insert(f.out[4..36].to_vec(), i) { o.impl_obs = format!("file {} and file {} both carry ephemeral key {}", j, i, hex(&f.out[4..36])); o.oracle_fail = Some(("fresh-ephemeral-key".into(), format!("file {} of a run of identical encryptions on one thread repeats the ephemeral public key of file {}", i, j))); return o; }
+            }
+            o.impl_obs = format!("{} files, {} distinct ephemeral keys", n, seen.len());
+            return o;
+        }
         if get(c, "mode") == "cli" {
             use crate::cli::*;
             let fx = fixtures();
@@ -106,4 +128,33 @@ impl Prop for C08 {
         else if files[0][36..132] == files[1][36..132] { o.oracle_fail = Some(("handshake-depends-on-identities".into(), "encrypted handshake fields identical for different identities".into())); }
         o
     }
+}
+
+/// `kestrel encrypt p -t bob -f alice -k kr > out` on a terminal: the user mistypes the password `wrongs` times
+fn run_tty(c: &Case, m: &mut Model) -> Outcome {
+    use crate::cli::*;
+    let mut o = Outcome::default();
+    let fx = fixtures();
+    let mut rng = Rng::new(get(c, "seed").parse().unwrap_or(0));
+    let len = getn(c, "len"); let wrongs = getn(c, "wrongs"); let plain = payload(rng.next(), len);
+    let w = World { files: vec![("p".to_string(), plain.clone()), ("kr".to_string(), keyring(&[(&fx.alice, true), (&fx.bob, true)]).into_bytes())], env: vec![], stdin: vec![] };
+    let args = sv(&["encrypt", "p", "-t", "bob", "-f", "alice", "-k", "kr"]);
+    let pool = ["alice-pw ", "Alice-pw", "x", "alice-pw1"];
+    let mut typed: Vec<&str> = (0..wrongs).map(|i| pool[i % pool.len()]).collect(); typed.push(fx.alice.pw);
+    let keys: Vec<u8> = typed.iter().flat_map(|l| { let mut b = l.as_bytes().to_vec(); b.push(b'\n'); b }).collect();
+    let (obs, screen) = run_kestrel_typed(&w, &args, &keys, 60);
+    let (mo, mretries) = model_cli_tty(m, &w, &args, &typed, &rng.bytes(32), &rng.bytes(32));
+    let retries = obs.stderr.matches("Key unlock failed.").count();
+    o.validated += 1; o.tags.push(format!("tty wrongs={} exit={:?}", wrongs, obs.exit)); o.nontrivial = Some(format!("tty/{}/{}", len, wrongs));
+    o.impl_obs = format!("exit={:?} stdout={}B retries={} stderr={:?}", obs.exit, obs.stdout.len(), retries, obs.stderr); o.model_obs = format!("exit={} stdout={}B retries={}", mo.exit, mo.stdout.len(), mretries);
+    let f = &obs.stdout;
+    let what = format!("`kestrel {} > out` on a terminal, {} mistyped password(s) then the right one, |P| = {}", args.join(" "), wrongs, len);
+    if obs.exit != Some(0) { o.oracle_fail = Some(("interactive-encrypt-succeeds".into(), format!("{}: exit {:?}, stderr {:?}, terminal {:?}", what, obs.exit, obs.stderr, String::from_utf8_lossy(&screen)))); return o; }
+    if f.len() != 132 + 32 * len.div_ceil(65536).max(1) + len { o.oracle_fail = Some(("length-formula".into(), format!("{}: the output stream has {} bytes, the format has {}", what, f.len(), 132 + 32 * len.div_ceil(65536).max(1) + len))); return o; }
+    if f[..4] != [0x65, 0x67, 0x6b, 0x10] { o.oracle_fail = Some(("only-format-fields-in-clear".into(), format!("{}: the output stream starts with {:?}, not with the format magic", what, String::from_utf8_lossy(&f[..f.len().min(24)])))); return o; }
+    if clear_view(f, 132).is_none() { o.oracle_fail = Some(("record-framing".into(), format!("{}: record headers do not tile the output", what))); return o; }
+    let d = imp::key_decrypt(&fx.bob.sk, &fx.bob.pk, f, &crate::imp::NOSCRIPT);
+    if d.res != "ok" || d.out != plain { o.oracle_fail = Some(("output-is-the-encrypted-file".into(), format!("{}: the output does not decrypt to the plaintext ({})", what, d.res))); return o; }
+    if mo.exit != 0 || mo.stdout.len() != f.len() || mretries != retries { o.disagreement = Some(format!("{}: impl exit {:?} {}B {} retries, model exit {} {}B {} retries", what, obs.exit, f.len(), retries, mo.exit, mo.stdout.len(), mretries)); }
+    o
 }
